@@ -443,7 +443,7 @@ def cpu_sharding():
     return _CACHE["sharding"]
 
 
-def _solve_fn(n, ospec, tracked, jit, record, sharding):
+def _solve_fn(n, ospec, tracked, jit, record, sharding, verbose=False):
     import jax
     import jinns
     opt = build_optimizer(ospec, record)
@@ -453,15 +453,16 @@ def _solve_fn(n, ospec, tracked, jit, record, sharding):
 
     def f(params, data, pdata, odata, loss, opt_state, val):
         return jinns.solve(n, params, data, loss, opt, opt_state=opt_state, tracked_params=tracked,
-                           param_data=pdata, obs_data=odata, validation=val, verbose=False, **kw)
+                           param_data=pdata, obs_data=odata, validation=val, verbose=verbose,
+                           print_loss_every=3, **kw)
 
     return jax.jit(f) if jit else f
 
 
-def solve_fn(n, ospec, pspec, track, jit, record=True, sharding=False):
-    key = ("solve", n, opt_key(ospec), repr(track), jit, bool(record), bool(sharding))
+def solve_fn(n, ospec, pspec, track, jit, record=True, sharding=False, verbose=False):
+    key = ("solve", n, opt_key(ospec), repr(track), jit, bool(record), bool(sharding), bool(verbose))
     if key not in _CACHE:
-        _CACHE[key] = _solve_fn(n, ospec, build_tracked(pspec, track), jit, record, sharding)
+        _CACHE[key] = _solve_fn(n, ospec, build_tracked(pspec, track), jit, record, sharding, bool(verbose))
     return _CACHE[key]
 
 
@@ -524,7 +525,7 @@ def run_segment(seg, objs=None):
     sharding = bool(seg.get("sharding", False))
     # the Python-loop path cannot be traced by an outer jit: it is always a plain call
     f = solve_fn(n, seg["opt"], pspec, seg.get("track"), bool(seg.get("jit", True)) and not sharding, record,
-                 sharding)
+                 sharding, bool(seg.get("verbose", False)))
     del LOG[:]
     sink = io.StringIO()
     try:
